@@ -474,6 +474,9 @@ pub fn run(rep: &mut Report) {
 
 pub fn replay(case: &Value) -> bool {
     let section = case["section"].as_str().unwrap_or("");
+    if section == "crash" {
+        return crate::jobs::replay_crash(case);
+    }
     let choices = choices_from(&case["choices"]);
     let res: Result<(), Problem> = match section {
         "hooks" => {
